@@ -31,7 +31,7 @@ def main():
             out = r.stdout.decode()
             if r.returncode != 0 or "VIOLATION" in out:
                 lines = [l for l in out.splitlines() if l and not l.startswith("    key") and not l.startswith("VIOLATION") and not l.startswith("WARNING") and not l.startswith("KNOWN")]
-                fired[p] = lines[:-1][:4]
+                fired[p] = lines[-16:] if "Traceback" in out else lines[:-1][:4]
     finally:
         sh("git", "-C", REPO, "checkout", "--", ".")
         sh("git", "-C", REPO, "clean", "-fdq", "--", "src", "tests")
